@@ -3,6 +3,7 @@
 package bpv7
 
 import (
+	"errors"
 	"bytes"
 	"math"
 
@@ -564,5 +565,47 @@ func H01_PayloadWidth() {
 	verif.Assert(primaryEqual(b.PrimaryBlock, b2.PrimaryBlock) && len(b2.CanonicalBlocks) == 2, "primary block and block list survive")
 	var w2 bytes.Buffer
 	verif.Assert(b2.WriteBundle(&w2) == nil && bytes.Equal(enc, w2.Bytes()), "re-serialisation is byte-identical")
+	verif.Reach("end")
+}
+
+// failAfter is a writer that accepts n bytes and then fails.
+type failAfter struct{ n int }
+
+func (f *failAfter) Write(p []byte) (int, error) {
+	if len(p) > f.n {
+		k := f.n
+		f.n = 0
+		return k, errWriteFailed
+	}
+	f.n -= len(p)
+	return len(p), nil
+}
+
+var errWriteFailed = errors.New("write failed")
+
+// H01_AfterFailure: serialisation is deterministic - it does not depend on what was serialised before: a bundle is
+// first written into a writer that fails after N bytes (every N up to the length of the encoding), or a bundle that
+// cannot be serialised is attempted; then a valid bundle with CRCs on its blocks is serialised: the bytes are the same
+// as those of a first serialisation and the parser accepts them.
+func H01_AfterFailure() {
+	registerRoutingBlocks()
+	b := tmplCRCBundle(verif.Choose("tmpl", 4))
+	ref := serialised(b)
+	if verif.Bool("invalid") {
+		bad := tmplCRCBundle(1)
+		bad.CanonicalBlocks[0].Value = NewPreviousNodeBlock(EndpointID{})
+		bad.CanonicalBlocks[0].CRCType = CRC32
+		_ = bad.WriteBundle(&bytes.Buffer{})
+	} else {
+		n := verif.Size("n", 0, len(ref))
+		_ = b.WriteBundle(&failAfter{n})
+	}
+	again := serialised(b)
+	verif.Assert(bytes.Equal(again, ref), "the same bundle serialises to the same bytes whatever was serialised before")
+	_, err := ParseBundle(bytes.NewReader(again))
+	verif.Assert(err == nil, "and the parser accepts them")
+	other := serialised(tmplCRCBundle(verif.Choose("other", 4)))
+	_, err = ParseBundle(bytes.NewReader(other))
+	verif.Assert(err == nil, "another bundle serialised afterwards is accepted as well")
 	verif.Reach("end")
 }
